@@ -788,11 +788,12 @@ fn main() {
     // ---- family B: large n ----------------------------------------------------------------------------------------
     let ns: [u32; 12] = [1, 2, 3, 99, 100, 101, 102, 499, 500, 501, 502, 600];
     let shapes = [Shape::Ring, Shape::StarIn, Shape::StarOut, Shape::Chain, Shape::NoEdge, Shape::Clique];
-    let clique_max = run.tier.pick(102, 600);
+    let clique_max = run.tier.pick(101, 600);
     let mut bases: Vec<Base> = Vec::new();
     for &shape in &shapes {
         for &n in &ns {
-            if shape == Shape::Clique && n > clique_max {
+            // quick: cliques only at 1,2,3 and on both sides of the n > 100 threshold (100, 101)
+            if shape == Shape::Clique && (n > clique_max || (run.tier == Tier::Quick && (n == 99 || n == 102))) {
                 continue;
             }
             for anchors in [vec![], vec![0u32], vec![0u32, n]] {
